@@ -305,6 +305,147 @@ theorem evalSubs_counts (subStatus : σ → Id → Status) (subIter : σ → Id 
         have hne : j ≠ a := fun e => hj (e ▸ List.mem_cons_self)
         rw [ih2 _ (fun h => hj (List.mem_cons_of_mem _ h)), hl.bump_other _ _ _ hne, hu']
 
+/-! ### Iteration counts of the selected submodels equal the linker's -/
+
+/-- The linker's own hooks leave the submodels' iteration counters alone (they are the user's code; the linker's
+    bookkeeping of those counters is `resetIter` / `bumpIter` only). -/
+structure HooksKeepIter (subIter : σ → Id → Int) (sel : List Id) : Prop where
+  evalBefore : ∀ o u k j, subIter (L.evalBefore o u sel t k).1 j = subIter u j
+  evalAfter : ∀ o u k j, subIter (L.evalAfter o u sel t k).1 j = subIter u j
+
+/-- One linker iteration that does not raise adds exactly one to the counter of every selected submodel and nothing
+    to the others. -/
+theorem linkerPass_counts (subStatus : σ → Id → Status) (subIter : σ → Id → Int)
+    (hl : Lawful L t subStatus subIter) (sel : List Id) (hk : HooksKeepIter L t subIter sel) (hnd : sel.Nodup)
+    (k : Nat) (u : σ) (h : (linkerPass L o sel t k u).2 = false) :
+    (∀ i, i ∈ sel → subIter (linkerPass L o sel t k u).1 i = subIter u i + 1) ∧
+    (∀ j, j ∉ sel → subIter (linkerPass L o sel t k u).1 j = subIter u j) := by
+  unfold linkerPass at h ⊢
+  have hb := hk.evalBefore o u k
+  rcases hb1 : L.evalBefore o u sel t k with ⟨u1, b1⟩
+  rw [hb1] at h hb
+  cases b1 with
+  | true => simp at h
+  | false =>
+    simp only at h hb ⊢
+    rcases hs : evalSubs L o t k sel u1 with ⟨u2, b2⟩
+    rw [hs] at h
+    cases b2 with
+    | true => simp at h
+    | false =>
+      simp only at h ⊢
+      have hc := evalSubs_counts L o t subStatus subIter hl k sel u1 hnd (by rw [hs])
+      rw [hs] at hc
+      have ha := hk.evalAfter o u2 k
+      constructor
+      · intro i hi; rw [ha, hc.1 i hi, hb]
+      · intro j hj; rw [ha, hc.2 j hj, hb]
+
+/-- After `k` iterations none of which raised, every selected submodel's counter has advanced by exactly `k` (so, from
+    the reset to 0 at the start of `solve_t`, it equals the linker's iteration count), and no other counter moved. -/
+theorem linker_counts_after (subStatus : σ → Id → Status) (subIter : σ → Id → Int)
+    (hl : Lawful L t subStatus subIter) (sel : List Id) (hk : HooksKeepIter L t subIter sel) (hnd : sel.Nodup)
+    (u0 : σ) : ∀ (k : Nat),
+      (∀ i, i < k → ((asInterp L sel).eval o (traj (asInterp L sel) o t u0 i) t (i + 1)).2 = false) →
+      (∀ i, i ∈ sel → subIter (traj (asInterp L sel) o t u0 k) i = subIter u0 i + k) ∧
+      (∀ j, j ∉ sel → subIter (traj (asInterp L sel) o t u0 k) j = subIter u0 j) := by
+  intro k
+  induction k with
+  | zero => intro _; exact ⟨fun i _ => by simp [traj], fun j _ => rfl⟩
+  | succ k ih =>
+    intro hev
+    obtain ⟨ih1, ih2⟩ := ih (fun i hi => hev i (by omega))
+    have hstep := linkerPass_counts L o t subStatus subIter hl sel hk hnd (k + 1)
+      (traj (asInterp L sel) o t u0 k) (hev k (Nat.lt_succ_self _))
+    constructor
+    · intro i hi
+      show subIter (linkerPass L o sel t (k + 1) (traj (asInterp L sel) o t u0 k)).1 i = _
+      rw [hstep.1 i hi, ih1 i hi]; push_cast; omega
+    · intro j hj
+      show subIter (linkerPass L o sel t (k + 1) (traj (asInterp L sel) o t u0 k)).1 j = _
+      rw [hstep.2 j hj, ih2 j hj]
+
+/-- The remaining get/set laws of the submodels' bookkeeping: the reset, and who leaves the counters alone. -/
+structure CountLaws (subIter : σ → Id → Int) (sel : List Id) : Prop where
+  reset_same : ∀ u i, subIter (L.resetIter u i t) i = 0
+  reset_other : ∀ u i j, j ≠ i → subIter (L.resetIter u i t) j = subIter u j
+  stamp_iter : ∀ u i s j, subIter (L.stampSub u i t s) j = subIter u j
+  solveBefore : ∀ o u j, subIter (L.solveBefore o u sel t).1 j = subIter u j
+  solveAfter : ∀ o u k j, subIter (L.solveAfter o u sel t k).1 j = subIter u j
+
+theorem resetAll_zero (subIter : σ → Id → Int) (sel0 : List Id) (hc : CountLaws L t subIter sel0) [DecidableEq Id] :
+    ∀ (sel : List Id) (u : σ), (resetAll L t sel u).2 = false →
+      ∀ i, i ∈ sel → subIter (resetAll L t sel u).1 i = 0 := by
+  intro sel
+  induction sel with
+  | nil => intro u _ i h; simp at h
+  | cons a rest ih =>
+    intro u h i hi
+    simp only [resetAll] at h ⊢
+    by_cases hk : L.known a = true
+    · simp only [hk, if_true] at h ⊢
+      by_cases hin : i ∈ rest
+      · exact ih _ h i hin
+      · have hia : i = a := by
+          rcases List.mem_cons.mp hi with h' | h'
+          · exact h'
+          · exact absurd h' hin
+        subst hia
+        have keep : ∀ (l : List Id) (u' : σ), i ∉ l → (resetAll L t l u').2 = false →
+            subIter (resetAll L t l u').1 i = subIter u' i := by
+          intro l
+          induction l with
+          | nil => intro u' _ _; rfl
+          | cons b l ih2 =>
+            intro u' hn hb
+            simp only [resetAll] at hb ⊢
+            by_cases hkb : L.known b = true
+            · simp only [hkb, if_true] at hb ⊢
+              rw [ih2 _ (fun h => hn (List.mem_cons_of_mem _ h)) hb]
+              exact hc.reset_other _ _ _ (fun e => hn (e ▸ List.mem_cons_self))
+            · simp [hkb] at hb
+        rw [keep rest _ hin h]
+        exact hc.reset_same _ _
+    · simp [hk] at h
+
+theorem stampSubs_iter (subIter : σ → Id → Int) (sel0 : List Id) (hc : CountLaws L t subIter sel0) (s : Status) :
+    ∀ (sel : List Id) (u : σ) (j : Id), subIter (stampSubs L t s sel u) j = subIter u j := by
+  intro sel
+  induction sel with
+  | nil => intro u j; rfl
+  | cons a rest ih => intro u j; simp only [stampSubs]; rw [ih, hc.stamp_iter]
+
+/-- **A solved period: every selected submodel carries the linker's status and the linker's iteration count.**
+    Under the conditions of `linker_converges` (first accepted pass `k0`), after `solve_t` each selected submodel's
+    status is '.' and its iteration counter equals `k0` — the count stamped on the linker itself. -/
+theorem linker_converged_submodels (subStatus : σ → Id → Status) (subIter : σ → Id → Int)
+    (hl : Lawful L t subStatus subIter) [DecidableEq Id] (sel : List Id) (hkp : HooksKeepIter L t subIter sel)
+    (hc : CountLaws L t subIter sel) (hnd : sel.Nodup) (w : World σ) (u1 : σ)
+    (hseed : lSolveT L o n t sel w = lCore L o n t sel w u1)
+    (hreset : (resetAll L t sel u1).2 = false)
+    (hb : (L.solveBefore o (resetAll L t sel u1).1 sel t).2 = false)
+    (k0 : Nat) (h1 : 1 ≤ k0) (hk : (k0 : Int) ≤ o.maxIter)
+    (hev : ∀ i, i < k0 →
+      (linkerPass L o sel t (i + 1)
+        (traj (asInterp L sel) o t (L.solveBefore o (resetAll L t sel u1).1 sel t).1 i)).2 = false)
+    (hleast : ∀ i, 0 < i → i < k0 →
+      ¬ Good (asInterp L sel) o t (L.solveBefore o (resetAll L t sel u1).1 sel t).1 (L.check u1 sel t) i)
+    (hgood : Good (asInterp L sel) o t (L.solveBefore o (resetAll L t sel u1).1 sel t).1 (L.check u1 sel t) k0)
+    (ha : (L.solveAfter o (traj (asInterp L sel) o t (L.solveBefore o (resetAll L t sel u1).1 sel t).1 k0)
+            sel t k0).2 = false) :
+    ∀ i, i ∈ sel →
+      subStatus (lSolveT L o n t sel w).1.user i = .solved ∧ subIter (lSolveT L o n t sel w).1.user i = k0 := by
+  intro i hi
+  rw [linker_converges L o n t sel w u1 hseed hreset hb k0 h1 hk hev hleast hgood ha]
+  simp only [stamp_user]
+  show subStatus (stampSubs L t .solved sel _) i = .solved ∧ subIter (stampSubs L t .solved sel _) i = k0
+  refine ⟨stampSubs_selected L t subStatus subIter hl .solved sel _ i hi, ?_⟩
+  rw [stampSubs_iter L t subIter sel hc, hc.solveAfter]
+  have hcnt := (linker_counts_after L o t subStatus subIter hl sel hkp hnd
+    (L.solveBefore o (resetAll L t sel u1).1 sel t).1 k0 (fun j hj => hev j hj)).1 i hi
+  rw [hcnt, hc.solveBefore, resetAll_zero L t subIter sel hc sel u1 hreset i hi]
+  omega
+
 /-! ### Construction -/
 
 theorem foldl_max_ge (l : List Nat) (b : Nat) : b ≤ l.foldl max b ∧ ∀ x ∈ l, x ≤ l.foldl max b := by
@@ -443,6 +584,92 @@ theorem single_model_linker_eq_model {τ : Type} (M : Interp τ V) (π : σ → 
   | afterRaised u k => simp [LoopOut.map] at hls
   | badErrors u k => simp [LoopOut.map] at hls
 
+/-- How a model's result reads at the linker level: a linker propagates exceptions as they are. -/
+def toL : Result → LResult
+  | .ret b => .ret b
+  | .nonConvergence => .nonConvergence
+  | _ => .raised
+
+theorem lfinish_vs_finish {τ : Type} (π : σ → τ) (sel : List Id) (w : World σ) (r : LoopOut σ)
+    (hπstamp : ∀ u s, π (stampSubs L t s sel u) = π u) :
+    π (lfinish L o n t sel w r).1.user = (finish o n t (w.map π) (r.map π)).1.user ∧
+    (lfinish L o n t sel w r).2 = toL (finish o n t (w.map π) (r.map π)).2 ∧
+    ((∃ u s k, r = .done u s k) → (lfinish L o n t sel w r).1.map π = (finish o n t (w.map π) (r.map π)).1) := by
+  cases r with
+  | done u s k =>
+    refine ⟨?_, ?_, fun _ => ?_⟩
+    · simp only [lfinish, finish, LoopOut.map, stamp_user]
+      exact hπstamp u s
+    · simp only [lfinish, finish, LoopOut.map]
+      split <;> rfl
+    · simp only [lfinish, finish, LoopOut.map, stamp_map, withUser_map, hπstamp]
+  | evalRaised u k =>
+    refine ⟨?_, rfl, fun ⟨_, _, _, h⟩ => nomatch h⟩
+    simp only [lfinish, finish, LoopOut.map]
+    split <;> simp [stamp_user, withUser, World.map]
+  | nonFinite u k =>
+    exact ⟨by simp [lfinish, finish, LoopOut.map, stamp_user, withUser, World.map], rfl, fun ⟨_, _, _, h⟩ => nomatch h⟩
+  | afterRaised u k =>
+    exact ⟨by simp [lfinish, finish, LoopOut.map, withUser, World.map], rfl, fun ⟨_, _, _, h⟩ => nomatch h⟩
+  | badErrors u k =>
+    exact ⟨by simp [lfinish, finish, LoopOut.map, withUser, World.map], rfl, fun ⟨_, _, _, h⟩ => nomatch h⟩
+
+/-- **Single-model linker ≡ model, on every path.**  Under the same simulation hypotheses as
+    `single_model_linker_eq_model` but with *no* assumption on how the passes go: the linker's projected values
+    always equal the model's, its result is the model's result read at the linker level (`True`/`False`/
+    NonConvergenceError the same; any exception propagated), and whenever the model's loop ends without an
+    exception (converged, failed, or skipped) the whole projected world — values, statuses, iteration counts — is
+    the model's.  The model is taken with non-finite detection off (`blind`): the linker has none. -/
+theorem single_model_linker_eq_model_all {τ : Type} (M : Interp τ V) (π : σ → τ) (sel : List Id) (w : World σ)
+    (hsim : Sim (asInterp L sel) (blind M) π)
+    (hreset : (resetAll L t sel w.user).2 = false)
+    (hπreset : π (resetAll L t sel w.user).1 = π w.user)
+    (hπstamp : ∀ u s, π (stampSubs L t s sel u) = π u)
+    (h0 : o.offset = 0) (hmm : ¬ o.minIter > o.maxIter) (hfeas : Feasible M n t) :
+    π (lSolveT L o n t sel w).1.user = (solveT (blind M) o n t (w.map π)).1.user ∧
+    (lSolveT L o n t sel w).2 = toL (solveT (blind M) o n t (w.map π)).2 ∧
+    (((∃ b, (solveT (blind M) o n t (w.map π)).2 = .ret b) ∨ (solveT (blind M) o n t (w.map π)).2 = .nonConvergence) →
+      (lSolveT L o n t sel w).1.map π = (solveT (blind M) o n t (w.map π)).1) := by
+  have hacc : Accepted (blind M) o n t := ⟨hmm, hfeas, Or.inl h0⟩
+  have hseedM : seed (blind M) o t (w.map π).user = π w.user := by simp [seed, h0, World.map]
+  rw [solveT_accepted (blind M) o n t (w.map π) hacc, hseedM]
+  have hlseed : lSolveT L o n t sel w = lCore L o n t sel w w.user := by simp [lSolveT, h0]
+  rw [hlseed]
+  unfold lCore solveCore
+  have e1 : resetAll L t sel w.user = ((resetAll L t sel w.user).1, false) := Prod.ext rfl hreset
+  rw [e1]
+  simp only
+  have hbS := hsim.before o (resetAll L t sel w.user).1 t
+  rw [hπreset] at hbS
+  have hnb : ¬ (o.errors = .raise ∧ (blind M).allFinite ((blind M).check (π w.user) t) = false) := by
+    simp [blind]
+  rw [if_neg hnb, ← hbS]
+  simp only [asInterp]
+  rcases hb : L.solveBefore o (resetAll L t sel w.user).1 sel t with ⟨u3, b⟩
+  cases b with
+  | true =>
+    simp only [toL]
+    refine ⟨rfl, trivial, ?_⟩
+    rintro (⟨b, h⟩ | h) <;> cases h
+  | false =>
+    simp only
+    have hls := loop_sim hsim o t o.maxIter.toNat 1 u3 (L.check w.user sel t)
+    have hchk : L.check w.user sel t = (blind M).check (π w.user) t := hsim.check w.user t
+    rw [hchk] at hls ⊢
+    rw [← hls]
+    obtain ⟨a, b, c⟩ := lfinish_vs_finish L o n t π sel w
+      (loop (asInterp L sel) o t o.maxIter.toNat 1 u3 ((blind M).check (π w.user) t)) hπstamp
+    refine ⟨a, b, ?_⟩
+    intro hres
+    apply c
+    generalize loop (asInterp L sel) o t o.maxIter.toNat 1 u3 ((blind M).check (π w.user) t) = r at hres ⊢
+    cases r with
+    | done u s k => exact ⟨u, s, k, rfl⟩
+    | evalRaised u k => rcases hres with ⟨b, h⟩ | h <;> simp [finish, LoopOut.map] at h
+    | nonFinite u k => rcases hres with ⟨b, h⟩ | h <;> simp [finish, LoopOut.map] at h
+    | afterRaised u k => rcases hres with ⟨b, h⟩ | h <;> simp [finish, LoopOut.map] at h
+    | badErrors u k => rcases hres with ⟨b, h⟩ | h <;> simp [finish, LoopOut.map] at h
+
 /-! ### Non-vacuity -/
 
 /-- Two submodels `0`, `1` (state = their values and counters); the linker itself adds nothing. -/
@@ -488,5 +715,178 @@ theorem linker_history_irrelevant (sel : List Id) (u : σ) (st st' : List Status
     (lSolveT L o n t sel ⟨u, st, it⟩).1.user = (lSolveT L o n t sel ⟨u, st', it'⟩).1.user ∧
     (lSolveT L o n t sel ⟨u, st, it⟩).2 = (lSolveT L o n t sel ⟨u, st', it'⟩).2 := by
   simp only [lSolveT_eq_outcome, applyLOutcome_user, applyLOutcome_result, and_self]
+
+/-! ### Non-vacuity (review): every hypothesis-carrying theorem instantiated at a concrete non-trivial instance -/
+
+section Review
+
+private abbrev exU : List Nat × List Int := ([0, 0], [-1, -1])
+private def exW : World (List Nat × List Int) := ⟨exU, List.replicate 3 .unsolved, [-1, -1, -1]⟩
+private theorem swapLt {P : Nat → Prop} (n : Nat) (h : ∀ i, i < n → 0 < i → P i) : ∀ i, 0 < i → i < n → P i :=
+  fun i a b => h i b a
+private theorem swapLe {P : Nat → Prop} (n : Nat) (h : ∀ i, i ≤ n → 0 < i → P i) : ∀ i, 0 < i → i ≤ n → P i :=
+  fun i a b => h i b a
+
+/-- `evalSubs_logged_events`, `linker_iteration_shape`: iteration 1 over the selection `[0, 1]`. -/
+example : (evalSubs (llogged exL) {} 1 1 [0, 1] (exU, [])).1.2 = [] ++ [0, 1].map (fun i => LEvent.sub i 1) :=
+  evalSubs_logged_events exL {} 1 1 [0, 1] exU [] (by decide)
+example : (linkerPass (llogged exL) {} [0, 1] 1 1 (exU, [])).1.2 =
+    [.evalBefore 1, .sub 0 1, .sub 1 1, .evalAfter 1] :=
+  linker_iteration_shape exL {} 1 [0, 1] 1 exU [] (by decide) (by decide)
+
+/-- `unselected_not_evaluated`: with only submodel 1 selected no pass of submodel 0 is logged. -/
+example : LEvent.sub 0 1 ∉ (linkerPass (llogged exL) {} [1] 1 1 (exU, [])).1.2 :=
+  unselected_not_evaluated exL {} 1 [1] 1 exU [] 0 1 (by decide) (by decide) (by decide) (by decide)
+
+/-- `unknown_id_keyerror` (with a non-zero offset too), `linker_offset_seeds`, `linker_offset_oob`. -/
+example : (lSolveT exL { offset := -1 } 3 1 [0, 7] exW).2 = .keyError :=
+  unknown_id_keyerror exL _ 3 1 [0, 7] exW (by decide)
+example : lSolveT exL { offset := -1 } 3 1 [0, 1] exW =
+    lCore exL { offset := -1 } 3 1 [0, 1] exW (exL.copyOffset exW.user [0, 1] 1 (-1)) :=
+  linker_offset_seeds exL _ 3 1 [0, 1] exW (by decide) (by decide) (by decide) (by decide)
+example : lSolveT exL { offset := -1 } 3 0 [0, 1] exW = (exW, .indexError) ∧
+    lSolveT exL { offset := 1 } 3 (-1) [0, 1] exW = (exW, .indexError) :=
+  ⟨linker_offset_oob exL _ 3 0 [0, 1] exW (by decide) (by decide) (by decide),
+   linker_offset_oob exL _ 3 (-1) [0, 1] exW (by decide) (by decide) (by decide)⟩
+
+/-- `lSolveT_eq_finish`, `linker_converges` (`k0 = 4`), `linker_fails` (`max_iter = 3`) on the two-submodel linker. -/
+example : lSolveT exL { maxIter := 10 } 3 1 [0, 1] exW =
+    lfinish exL { maxIter := 10 } 3 1 [0, 1] exW
+      (loop (asInterp exL [0, 1]) { maxIter := 10 } 1 ({ maxIter := 10 } : Opts).maxIter.toNat 1
+        (exL.solveBefore { maxIter := 10 } (resetAll exL 1 [0, 1] exU).1 [0, 1] 1).1 (exL.check exU [0, 1] 1)) :=
+  lSolveT_eq_finish exL { maxIter := 10 } 3 1 [0, 1] exW exU (by decide) (by decide) (by decide)
+example : lSolveT exL { maxIter := 10 } 3 1 [0, 1] exW =
+    (stamp (withUser exW (stampSubs exL 1 .solved [0, 1] ([2, 3], [4, 4]))) 3 1 .solved ((4 : Nat) : Int), .ret true) :=
+  linker_converges exL { maxIter := 10 } 3 1 [0, 1] exW exU (by decide) (by decide) (by decide) 4 (by decide) (by decide)
+    (by decide) (swapLt 4 (by unfold Good; decide)) (by unfold Good; decide) (by decide)
+example : lSolveT exL { maxIter := 3 } 3 1 [0, 1] exW =
+    (stamp (withUser exW (stampSubs exL 1 .failed [0, 1] ([2, 3], [3, 3]))) 3 1 .failed ((3 : Nat) : Int), .nonConvergence) :=
+  linker_fails exL { maxIter := 3 } 3 1 [0, 1] exW exU (by decide) (by decide) (by decide) (by decide)
+    (swapLe 3 (by unfold Good; decide))
+
+/-- `lags_leads_max` on three submodels. -/
+example : linkerExtent [1, 3, 2] ∈ [1, 3, 2] := (lags_leads_max [1, 3, 2]).2.1 (by decide)
+example : linkerExtent [1, 3, 2] = 3 := by decide
+
+/-- A linker whose submodel bookkeeping is observable (function-valued state, so the get/set laws hold for every id):
+    values, iteration counters, statuses. -/
+private def upd {β : Type} (f : Nat → β) (i : Nat) (v : β) : Nat → β := fun j => if j = i then v else f j
+private def exLF : LInterp ((Nat → Nat) × (Nat → Int) × (Nat → Status)) (List Nat) Nat where
+  known i := i < 2
+  check u sel _ := sel.map u.1
+  close a b := a == b
+  copyOffset u _ _ _ := u
+  resetIter u i _ := (u.1, upd u.2.1 i 0, u.2.2)
+  bumpIter u i _ := (u.1, upd u.2.1 i (u.2.1 i + 1), u.2.2)
+  stampSub u i _ s := (u.1, u.2.1, upd u.2.2 i s)
+  solveBefore _ u _ _ := (u, false)
+  evalBefore _ u _ _ _ := (u, false)
+  evalSub _ u i _ _ := ((upd u.1 i (min (u.1 i + 1) (2 + i)), u.2), false)
+  evalAfter _ u _ _ _ := (u, false)
+  solveAfter _ u _ _ _ := (u, false)
+
+private theorem exLF_lawful : Lawful exLF 1 (fun u i => u.2.2 i) (fun u i => u.2.1 i) where
+  stamp_same := by intro u i s; simp [exLF, upd]
+  stamp_other := by intro u i j s h; simp [exLF, upd, h]
+  bump_same := by intro u i; simp [exLF, upd]
+  bump_other := by intro u i j h; simp [exLF, upd, h]
+  eval_iter := by intro o u i k j; simp [exLF]
+
+/-- `stampSubs_selected` / `stampSubs_unselected` / `evalSubs_counts` with selection `[0, 1]` (submodel 5 unselected). -/
+example (u : (Nat → Nat) × (Nat → Int) × (Nat → Status)) :
+    (stampSubs exLF 1 .solved [0, 1] u).2.2 1 = .solved ∧ (stampSubs exLF 1 .solved [0, 1] u).2.2 5 = u.2.2 5 :=
+  ⟨stampSubs_selected exLF 1 _ _ exLF_lawful .solved [0, 1] u 1 (by decide),
+   stampSubs_unselected exLF 1 _ _ exLF_lawful .solved [0, 1] u 5 (by decide)⟩
+example (u : (Nat → Nat) × (Nat → Int) × (Nat → Status)) :
+    (evalSubs exLF {} 1 1 [0, 1] u).1.2.1 1 = u.2.1 1 + 1 ∧ (evalSubs exLF {} 1 1 [0, 1] u).1.2.1 5 = u.2.1 5 :=
+  ⟨(evalSubs_counts exLF {} 1 _ _ exLF_lawful 1 [0, 1] u (by decide) rfl).1 1 (by decide),
+   (evalSubs_counts exLF {} 1 _ _ exLF_lawful 1 [0, 1] u (by decide) rfl).2 5 (by decide)⟩
+
+private theorem exLF_hooks : HooksKeepIter exLF 1 (fun u i => u.2.1 i) [0, 1] where
+  evalBefore := by intro o u k j; rfl
+  evalAfter := by intro o u k j; rfl
+
+/-- `linker_counts_after`: three iterations of the two selected submodels advance both counters by exactly 3 and leave
+    submodel 5's counter alone. -/
+example (u : (Nat → Nat) × (Nat → Int) × (Nat → Status)) :
+    (traj (asInterp exLF [0, 1]) {} 1 u 3).2.1 1 = u.2.1 1 + 3 ∧ (traj (asInterp exLF [0, 1]) {} 1 u 3).2.1 5 = u.2.1 5 := by
+  have h := linker_counts_after exLF {} 1 _ _ exLF_lawful [0, 1] exLF_hooks (by decide) u 3 (by intro i _; rfl)
+  exact ⟨by simpa using h.1 1 (by decide), h.2 5 (by decide)⟩
+
+private theorem exLF_countlaws : CountLaws exLF 1 (fun u i => u.2.1 i) [0, 1] where
+  reset_same := by intro u i; simp [exLF, upd]
+  reset_other := by intro u i j h; simp [exLF, upd, h]
+  stamp_iter := by intro u i s j; rfl
+  solveBefore := by intro o u j; rfl
+  solveAfter := by intro o u k j; rfl
+
+/-- `resetAll_zero` / `stampSubs_iter` (the laws `linker_converged_submodels` needs are satisfiable): resetting the two
+    selected submodels zeroes their counters; stamping leaves counters alone. -/
+example (u : (Nat → Nat) × (Nat → Int) × (Nat → Status)) :
+    (resetAll exLF 1 [0, 1] u).1.2.1 1 = 0 ∧ (stampSubs exLF 1 .solved [0, 1] u).2.1 1 = u.2.1 1 :=
+  ⟨resetAll_zero exLF 1 _ [0, 1] exLF_countlaws [0, 1] u rfl 1 (by decide),
+   stampSubs_iter exLF 1 _ [0, 1] exLF_countlaws .solved [0, 1] u 1⟩
+
+/-- `single_model_linker_eq_model`: a linker around the one model `C02.exI` (state = the model's value plus the
+    submodel's iteration counter; projection = forget the counter), converging at pass 4. -/
+private def exL1 : LInterp (Nat × Int) Nat Nat where
+  known i := i == 0
+  check u _ _ := u.1
+  close a b := a == b
+  copyOffset u _ _ _ := u
+  resetIter u _ _ := (u.1, 0)
+  bumpIter u _ _ := (u.1, u.2 + 1)
+  stampSub u _ _ _ := u
+  solveBefore _ u _ _ := (u, false)
+  evalBefore _ u _ _ _ := (u, false)
+  evalSub _ u _ _ _ := ((min (u.1 + 1) 3, u.2), false)
+  evalAfter _ u _ _ _ := (u, false)
+  solveAfter _ u _ _ _ := (u, false)
+
+private theorem exL1_sim : Sim (asInterp exL1 [0]) (blind C02.exI) Prod.fst where
+  lags := rfl
+  leads := rfl
+  check := fun _ _ => rfl
+  allFinite := rfl
+  close := rfl
+  zeroNF := rfl
+  copyOffset := fun _ _ _ => rfl
+  before := fun _ _ _ => rfl
+  eval := fun _ _ _ _ => rfl
+  after := fun _ _ _ _ => rfl
+
+example : ((lSolveT exL1 { maxIter := 10 } 5 2 [0] ⟨(0, -1), List.replicate 5 .unsolved, List.replicate 5 (-1)⟩).1.map Prod.fst,
+      (lSolveT exL1 { maxIter := 10 } 5 2 [0] ⟨(0, -1), List.replicate 5 .unsolved, List.replicate 5 (-1)⟩).2) =
+    ((solveT C02.exI { maxIter := 10 } 5 2
+        ((⟨(0, -1), List.replicate 5 .unsolved, List.replicate 5 (-1)⟩ : World (Nat × Int)).map Prod.fst)).1,
+      LResult.ret true) ∧
+    (solveT C02.exI { maxIter := 10 } 5 2
+        ((⟨(0, -1), List.replicate 5 .unsolved, List.replicate 5 (-1)⟩ : World (Nat × Int)).map Prod.fst)).2 = .ret true :=
+  single_model_linker_eq_model exL1 { maxIter := 10 } 5 2 C02.exI Prod.fst [0] _ exL1_sim (by decide) (by decide)
+    (fun _ _ => rfl) rfl (by decide) (by unfold Feasible; decide) (by decide) 4 (by decide) (by decide) (by decide)
+    (by decide) (swapLt 4 (by unfold Good; decide)) (by unfold Good; decide) (by decide)
+example : lSolveT exL1 { maxIter := 10 } 5 2 [0] ⟨(0, -1), List.replicate 5 .unsolved, List.replicate 5 (-1)⟩ =
+    (⟨(3, 4), [.unsolved, .unsolved, .solved, .unsolved, .unsolved], [-1, -1, 4, -1, -1]⟩, .ret true) := by decide
+
+/-- `single_model_linker_eq_model_all` on a *failing* run (`max_iter = 3`: 'F', count 3, `False`) — the path the
+    converging-only theorem does not cover. -/
+example :
+    Prod.fst (lSolveT exL1 { maxIter := 3, failRaise := false } 5 2 [0]
+        ⟨(0, -1), List.replicate 5 .unsolved, List.replicate 5 (-1)⟩).1.user =
+      (solveT (blind C02.exI) { maxIter := 3, failRaise := false } 5 2
+        ((⟨(0, -1), List.replicate 5 .unsolved, List.replicate 5 (-1)⟩ : World (Nat × Int)).map Prod.fst)).1.user ∧
+    (lSolveT exL1 { maxIter := 3, failRaise := false } 5 2 [0]
+        ⟨(0, -1), List.replicate 5 .unsolved, List.replicate 5 (-1)⟩).2 =
+      toL (solveT (blind C02.exI) { maxIter := 3, failRaise := false } 5 2
+        ((⟨(0, -1), List.replicate 5 .unsolved, List.replicate 5 (-1)⟩ : World (Nat × Int)).map Prod.fst)).2 :=
+  let h := single_model_linker_eq_model_all exL1 { maxIter := 3, failRaise := false } 5 2 C02.exI Prod.fst [0]
+    ⟨(0, -1), List.replicate 5 .unsolved, List.replicate 5 (-1)⟩ exL1_sim (by decide) (by decide) (fun _ _ => rfl) rfl
+    (by decide) (by unfold Feasible; decide)
+  ⟨h.1, h.2.1⟩
+example : lSolveT exL1 { maxIter := 3, failRaise := false } 5 2 [0]
+      ⟨(0, -1), List.replicate 5 .unsolved, List.replicate 5 (-1)⟩ =
+    (⟨(3, 3), [.unsolved, .unsolved, .failed, .unsolved, .unsolved], [-1, -1, 3, -1, -1]⟩, .ret false) := by decide
+
+end Review
 
 end Fsic.C08
